@@ -224,7 +224,9 @@ def object_case(c):
     if c.get('vdom'):
         dom = [[0.1, 14.5], [0.0, 2 * math.pi], [0.0, 1506.759067], list(c['vdom'])]
     bs, eta = ac.real_spaces(c['npts'], c['degrees'], uniform=c['uniform'], rng=rng, dom=dom)
-    const = ac.real_constants()
+    # odd cases: ion / electron / density profile constants all different (the defaults have deltaRTe = deltaRTi, kTe = kTi, ...)
+    import simdriver
+    const = ac.real_constants(**(simdriver.DISTINCT_CONSTANTS if c['k'] % 2 else {}))
     obj = VParallelAdvection(eta, bs[3], const, edge=c['edge'])
     pts = eta[3]
     n = len(pts)
